@@ -500,6 +500,8 @@ class Runner:
         if k == "close":
             self.close(op["r"], op["how"])
             return {"k": "ok", "stale": self.check_saved(op["r"])}
+        if k == "solve" and op.get("via"):
+            return self.solve_evalb(op)
         if k == "solve":
             self.start_query(op)
             r = op["r"]
@@ -519,6 +521,58 @@ class Runner:
                 else:
                     return {"k": "solve", "answers": answers, "end": o["k"], "exc": o.get("exc"), "gvs": gvs, "pys": pys, "stale": self.check_saved(r), "makelist_stale": stale_list}
         raise ValueError(k)
+
+    def solve_evalb(self, op):
+        """the same consumer written with evaluate_bounded: the projection function looks at the answer and,
+        where the step abandons the query after k answers, raises (kinds: an ordinary exception, or
+        KeyboardInterrupt / SystemExit / GeneratorExit, which are no `Exception`)"""
+        import sys as _sys
+        via = op["via"]
+        self.start_query(op)
+        r = op["r"]
+        yp = self.yps[op["e"] - 1]
+        answers, gvs, pys = [], [], []
+
+        class _Abandon(Exception):
+            pass
+        kinds = {"Exception": _Abandon, "KeyboardInterrupt": KeyboardInterrupt, "SystemExit": SystemExit, "GeneratorExit": GeneratorExit}
+        exc = kinds[via.get("exc", "Exception")]
+
+        def proj(_):
+            answers.append(project_tuple(self.qv[r]))
+            gv = [engine.get_value(v) for v in self.qv[r]]
+            gvs.append(project_raw_tuple(gv))
+            row = []
+            for v in self.qv[r]:
+                try:
+                    row.append(py_image(engine.to_python(v)))
+                except Exception as e:
+                    row.append({"exception": type(e).__name__})
+            pys.append(row)
+            self.saved.setdefault(r, []).append((gv, answers[-1], row))
+            if op["k"] and len(answers) == op["k"]:
+                raise exc()
+            return len(answers)
+        before = _sys.getrecursionlimit()
+        end = "stop"
+        try:
+            if via.get("limit"):
+                res = yp.evaluate_bounded(self.q[r][0], proj, recursion_limit=via["limit"])
+            else:
+                res = yp.evaluate_bounded(self.q[r][0], proj)
+        except exc:
+            end = "closed"
+            res = None
+        after = _sys.getrecursionlimit()
+        _sys.setrecursionlimit(before)
+        out = {"k": "solve", "answers": answers, "end": end, "gvs": gvs, "pys": pys, "stale": self.check_saved(r), "makelist_stale": None}
+        if after != before:
+            out["limit_after"] = [before, after]
+        if res is not None and res != list(range(1, len(res) + 1)):
+            out["bad_result"] = repr(res)[:200]
+        if res is not None and len(res) != len(answers):
+            out["bad_result"] = "%d results for %d answers" % (len(res), len(answers))
+        return out
 
     def snapshot(self):
         return {"dbs": [project_db(yp, self.keys) for yp in self.yps]}
